@@ -1082,7 +1082,8 @@ func (c *Ctx) checkCompactHeaderConstants(rule string) {
 			continue
 		}
 		n++
-		sig := func(fn *ssa.Function) string {
+		var sigOf func(fn *ssa.Function, depth int) []string
+		sigOf = func(fn *ssa.Function, depth int) []string {
 			var parts []string
 			instrsOf(fn, func(in ssa.Instruction) {
 				switch x := in.(type) {
@@ -1090,10 +1091,16 @@ func (c *Ctx) checkCompactHeaderConstants(rule string) {
 					if f, _ := addrField(x.Addr); f != nil {
 						parts = append(parts, "store:"+f.Name()+"="+fieldSym(x.Val, 4))
 					}
+				case *ssa.Call:
+					// a helper of the protocol (push / pop of the id stack extracted into a method)
+					if g := staticCallee(x); g != nil && g.Pkg == fn.Pkg && g.Blocks != nil && depth > 0 && g.Signature.Recv() != nil {
+						parts = append(parts, sigOf(g, depth-1)...)
+					}
 				}
 			})
-			return strings.Join(parts, "; ")
+			return parts
 		}
+		sig := func(fn *ssa.Function) string { return strings.Join(sigOf(fn, 2), "; ") }
 		ws, rs := sig(wf), sig(rf)
 		c.check(ws == rs && ws != "", rule, "thrift.TCompactProtocol:"+pair[0]+"/"+pair[1], wf.Pos(), "writer and reader maintain the field-id stack identically ("+ws+")",
 			fmt.Sprintf("%s does {%s} but %s does {%s}: the field-id stack (delta base) diverges between writer and reader in nested structs", pair[0], ws, pair[1], rs))
